@@ -13,7 +13,7 @@ use byteorder::{LittleEndian, ReadBytesExt};
 use std::borrow::Cow;
 use std::collections::HashMap;
 use std::io::{self, prelude::*};
-use std::path::Path;
+use std::path::{Path, PathBuf};
 use std::sync::Arc;
 
 #[cfg(any(
@@ -463,7 +463,8 @@ impl<R: Read + io::Seek> ZipArchive<R> {
                 .enclosed_name()
                 .ok_or(ZipError::InvalidArchive("Invalid file path"))?;
 
-            let outpath = directory.as_ref().join(filepath);
+            // `components()` drops `.` components: `create_dir_all("a/.")` fails when `a` is missing
+            let outpath: PathBuf = directory.as_ref().join(filepath).components().collect();
 
             if file.name().ends_with('/') {
                 fs::create_dir_all(&outpath)?;
